@@ -70,6 +70,10 @@ def _rexpr(rng, var, shape, wild, depth=0, var2=None):
         return aref(pick(rng, R1), [_sub(rng, var, shape, wild)])
     if r < 0.48:
         return call("abs", [_rexpr(rng, var, shape, wild, depth + 1, var2)])
+    if r < 0.56:
+        return call(pick(rng, ["max", "min", "sign"]),
+                    [_rexpr(rng, var, shape, wild, depth + 1, var2),
+                     _rexpr(rng, var, shape, wild, depth + 1, var2)])
     return binop(pick(rng, ["+", "+", "-", "*"]),
                  _rexpr(rng, var, shape, wild, depth + 1, var2),
                  _rexpr(rng, var, shape, wild, depth + 1, var2))
@@ -103,11 +107,16 @@ def _body1(rng, var, shape, cfg):
                                           wild and rng.random() < 0.3)]),
                         "rhs": _rexpr(rng, var, shape, wild)})
         elif kind == "cond":
+            target = pick(rng, R1)
+            other = {"k": "assign",
+                     "lhs": aref(target if rng.random() < 0.6 else
+                                 pick(rng, R1), [ref(var)]),
+                     "rhs": _rexpr(rng, var, shape, wild)}
             out.append({"k": "if", "cond": _cond(rng, var, shape, wild),
                         "then": [{"k": "assign",
-                                  "lhs": aref(pick(rng, R1), [ref(var)]),
+                                  "lhs": aref(target, [ref(var)]),
                                   "rhs": _rexpr(rng, var, shape, wild)}],
-                        "else": []})
+                        "else": [other] if rng.random() < 0.35 else []})
         elif kind == "tmp":
             s = pick(rng, RS)
             arr = pick(rng, R1)
@@ -132,6 +141,8 @@ def _bounds(shape):
         lo, hi, step = ref("n"), lit(1), -1
     elif shape == "1..k":
         hi = ref("k")
+    elif shape == "1..idx":
+        hi = aref("idx", [lit(1)])      # a loop bound read from an array
     elif shape == "step2":
         step = 2
     return lo, hi, step
@@ -142,7 +153,7 @@ def gen_loop1(rng, cfg, var="i"):
                            (cfg["w_full"] / 6 if cfg.get("clean") else 1,
                             "n..1"),
                            (1, "2..n"), (1, "1..n-1"), (0.7, "1..k"),
-                           (0.5, "step2")])
+                           (0.5, "step2"), (0.5, "1..idx")])
     lo, hi, step = _bounds(shape)
     return {"k": "do", "var": var, "lo": lo, "hi": hi, "step": step,
             "body": _body1(rng, var, shape, cfg)}
